@@ -5,8 +5,9 @@ C11 (cartridge part) – no cartridge image and no guest access can crash the ca
 
 The model (`Model/Cart.lean`) returns `none` wherever the Go code can panic (slice index out of
 range, `%` by a zero divisor, the explicit panics of `newMBC`/`prepareROM`).  Here:
-* `c11_construct_total` : for EVERY image (any length, any bytes) construction either fails or
-  yields a well-formed controller;
+* `c11_construct_total_partial` : for EVERY image shorter than 1 GiB (any length, any bytes)
+  construction either fails or yields a well-formed controller (the unrestricted statement is FALSE
+  for the code: `c11_mbc5_65536_banks_crash`);
 * `c11_cart_no_crash`   : from a well-formed controller, EVERY sequence of bus writes (any 16-bit
   address, any value) and machine-cycle ticks runs without a crash, ends well-formed, and a read of
   ANY address succeeds.
